@@ -1,5 +1,5 @@
-CONSTANTS Stride3 = 1
-  Stride4 = 101
+CONSTANTS Stride3 = 5
+  Stride4 = 401
   MaxLen = 4
 INIT Init
 NEXT Next
